@@ -287,3 +287,16 @@ def structured_alterations(rnd, m, lo, hi, n_pairs=40, n_random=0):
     for _ in range(n_random):
         out.append(("random", m[:lo] + bytes(rnd.getrandbits(8) for _ in range(ln)) + m[hi:]))
     return [(l, b) for (l, b) in out if b != m]
+
+
+def related_passwords(pw):
+    """passwords that a normalising / pre-hashing / truncating implementation would confuse with pw"""
+    import hashlib
+    out = [pw + b"!", pw + b"\n", pw + b"\r\n", pw + b" ", pw + b"\x00", pw[:-1], pw.lower(), pw.upper(), pw.strip(),
+           hashlib.sha256(pw).digest(), hashlib.sha384(pw).digest(), hashlib.sha512(pw).digest(),
+           pw[:64], pw[:128], pw[:255], pw[:256], pw[1:], pw[::-1]]
+    seen, res = set(), []
+    for x in out:
+        if x != pw and x not in seen:
+            seen.add(x); res.append(x)
+    return res
